@@ -38,6 +38,7 @@ type action struct {
 	K    json.RawMessage `json:"k"`
 	Drop int             `json:"drop"`
 	Out  string          `json:"out"`
+	Next string          `json:"next"`
 }
 
 func (a *action) kInt() int {
@@ -349,17 +350,18 @@ func listenTargets() (*env, error) {
 		b, err1 := relayenv.ListenSock(fmt.Sprintf("127.0.0.3:%d", port), false)
 		c, err2 := relayenv.ListenSock(fmt.Sprintf("127.0.0.4:%d", port), false)
 		d, err3 := relayenv.ListenSock(fmt.Sprintf("127.0.0.5:%d", port), false)
-		if err1 != nil || err2 != nil || err3 != nil {
+		c2, err4 := relayenv.ListenSock(fmt.Sprintf("127.0.0.6:%d", port), false)
+		if err1 != nil || err2 != nil || err3 != nil || err4 != nil {
 			a.Close()
-			for _, s := range []*relayenv.Sock{b, c, d} {
+			for _, s := range []*relayenv.Sock{b, c, d, c2} {
 				if s != nil {
 					s.Close()
 				}
 			}
 			continue
 		}
-		return &env{targets: map[string]*relayenv.Sock{"a": a, "b": b, "ip": c, "rej": d}, tport: port, clients: map[string]*relayenv.Sock{},
-			addrOf: map[string]string{"nx": fmt.Sprintf("nx.test:%d", port), "a": fmt.Sprintf("a.test:%d", port), "b": fmt.Sprintf("b.test:%d", port), "ip": fmt.Sprintf("127.0.0.4:%d", port), "rej": fmt.Sprintf("127.0.0.5:%d", port)}}, nil
+		return &env{targets: map[string]*relayenv.Sock{"a": a, "b": b, "ip": c, "rej": d, "ip2": c2}, tport: port, clients: map[string]*relayenv.Sock{},
+			addrOf: map[string]string{"nx": fmt.Sprintf("nx.test:%d", port), "a": fmt.Sprintf("a.test:%d", port), "b": fmt.Sprintf("b.test:%d", port), "ip": fmt.Sprintf("127.0.0.4:%d", port), "rej": fmt.Sprintf("127.0.0.5:%d", port), "ip2": fmt.Sprintf("127.0.0.6:%d", port)}}, nil
 	}
 	return nil, fmt.Errorf("no free port set")
 }
@@ -465,6 +467,7 @@ func runBehaviour(t *testing.T, in *vio.Input, bi int, b vio.Behaviour, v varian
 	cleanupsSeen := map[string]int{}
 	queued := map[string][]string{}   // payloads queued to the session's send channel, in order
 	curPayload := map[string]string{} // the payload the uplink is working on
+	batch := map[string][]string{}    // batched uplink: payloads packed and not yet written
 	replyFrom := map[string]string{}  // target the pending reply was sent from
 	type reply struct {
 		kind    string
@@ -796,6 +799,65 @@ func runBehaviour(t *testing.T, in *vio.Input, bi int, b vio.Behaviour, v varian
 				}
 				time.Sleep(time.Millisecond)
 			}
+		case "UpPack":
+			// batched uplink (sendmmsg path): the packet the uplink holds is packed; the loop then takes the next queued
+			// packet without blocking (parks before packing it) or, when there is none, writes the whole batch
+			if len(curPayload[a.S]) > 0 {
+				batch[a.S] = append(batch[a.S], curPayload[a.S])
+			}
+			if !w.release(a.S, "uplink") {
+				brk("uplink not parked")
+				return
+			}
+			if a.Next != "" && a.Next != "-" {
+				if pt, ok := w.waitParked(a.S, "uplink", stepTimeout, "relay.uplink.beforePack"); !ok {
+					brk("uplink did not take the next queued packet (at %q)", pt)
+					return
+				}
+				if len(queued[a.S]) > 0 {
+					curPayload[a.S] = queued[a.S][0]
+					queued[a.S] = queued[a.S][1:]
+				}
+				if a.Next == "a" || a.Next == "b" || a.Next == "nx" {
+					w.release(a.S, "uplink")
+					if pt, ok := w.waitParked(a.S, "uplink", stepTimeout, "direct.pack.beforeCheck"); !ok {
+						brk("uplink not at the cache check (at %q)", pt)
+						return
+					}
+				}
+				break
+			}
+			if pt, ok := w.waitParked(a.S, "uplink", stepTimeout, "relay.uplink.afterSend"); !ok {
+				brk("uplink did not write the batch (at %q)", pt)
+				return
+			}
+			// every datagram of the batch must arrive at the socket of the target it names (and nowhere else)
+			dlb := time.Now().Add(stepTimeout)
+			for {
+				checkArrivals(si)
+				out := ""
+				for _, p := range batch[a.S] {
+					if _, outstanding := expectArrive[p]; outstanding {
+						out = p
+					}
+				}
+				if out == "" {
+					break
+				}
+				if time.Now().After(dlb) {
+					fail("relay.isolation/datagram-lost", fmt.Sprintf("datagram %q of session %s left the uplink in a batch of %d but reached no target", out, a.S, len(batch[a.S])), si, expectArrive[out], nil)
+					for _, p := range batch[a.S] {
+						delete(expectArrive, p)
+					}
+					break
+				}
+				time.Sleep(time.Millisecond)
+			}
+			res.Count("uplink_batches", 1)
+			if len(batch[a.S]) > 1 {
+				res.Count("uplink_batches_of_several", 1)
+			}
+			batch[a.S] = nil
 		case "UpRearm":
 			before := w.signalCount("relay.uplink.afterRearm", a.S)
 			if !w.release(a.S, "uplink") {
